@@ -1,10 +1,10 @@
 package c26
 
 import (
-	"os"
 	"context"
 	"fmt"
 	"io"
+	"os"
 	"sync"
 	"time"
 
@@ -58,7 +58,10 @@ func (p *dcEnd) Write(b []byte) (int, error) {
 		return 0, io.ErrClosedPipe
 	}
 }
-func (p *dcEnd) ReadDataChannel(b []byte) (int, bool, error) { n, err := p.Read(b); return n, false, err }
+func (p *dcEnd) ReadDataChannel(b []byte) (int, bool, error) {
+	n, err := p.Read(b)
+	return n, false, err
+}
 func (p *dcEnd) WriteDataChannel(b []byte, _ bool) (int, error) { return p.Write(b) }
 func (p *dcEnd) Close() error                                   { p.once.Do(func() { close(p.closed) }); return nil }
 
